@@ -116,8 +116,16 @@ func c19Mutations(d *c19Diagram) []*c19Diagram {
 		func(x *c19Node) bool { r := x.iconNear != ""; x.iconNear = ""; return r },
 		func(x *c19Node) bool { r := x.dir != ""; x.dir = ""; return r },
 		func(x *c19Node) bool { r := x.near != ""; x.near = ""; return r },
-		func(x *c19Node) bool { r := x.isGrid(); x.gridRows, x.gridCols, x.gap, x.vgap, x.hgap = 0, 0, -1, -1, -1; return r },
-		func(x *c19Node) bool { r := x.gap >= 0 || x.vgap >= 0 || x.hgap >= 0; x.gap, x.vgap, x.hgap = -1, -1, -1; return r },
+		func(x *c19Node) bool {
+			r := x.isGrid()
+			x.gridRows, x.gridCols, x.gap, x.vgap, x.hgap = 0, 0, -1, -1, -1
+			return r
+		},
+		func(x *c19Node) bool {
+			r := x.gap >= 0 || x.vgap >= 0 || x.hgap >= 0
+			x.gap, x.vgap, x.hgap = -1, -1, -1
+			return r
+		},
 		func(x *c19Node) bool { r := x.threeD || x.multiple; x.threeD, x.multiple = false, false; return r },
 		func(x *c19Node) bool { r := x.fontSize != 0; x.fontSize = 0; return r },
 	}
